@@ -157,6 +157,35 @@ func floodFault(e *Env, g G) {
 	e.Violation("penalty-rule", "a %d-byte line's write failed, the client reconnected and sent %d lines: their write times follow Hybrid's rule neither with the failed line counted nor without it; counting it: %s", failLen, n, why)
 }
 
+// wireLine is one line as the client wrote it: when its Write call was made,
+// and when the last of its bytes had been accepted (a slow reader makes the
+// socket take a line in parts).
+type wireLine struct {
+	start, end time.Duration
+	data       string
+}
+
+func wireLines(l *simnet.Link) []wireLine {
+	var out []wireLine
+	open := false
+	for _, w := range l.Writes {
+		if !open {
+			out = append(out, wireLine{start: w.Start})
+			open = true
+		}
+		x := &out[len(out)-1]
+		x.data += w.Data
+		x.end = w.T
+		if strings.HasSuffix(x.data, "\r\n") {
+			open = false
+		}
+	}
+	if open {
+		out = out[:len(out)-1] // still on its way
+	}
+	return out
+}
+
 func floodRun(e *Env) {
 	g := G{e.S}
 	if g.Pct(10) {
@@ -178,8 +207,26 @@ func floodRun(e *Env) {
 	splitRun := g.Pct(30) && effSplit <= 450
 	byTarget := map[string]*floodLine{}
 	splitCalls := 0
+	// a server that reads slowly: now and then it leaves what has been written
+	// in the socket for a few seconds, so a write takes that long.  Time is time:
+	// the penalty decays while the sender waits for the socket like at any other
+	// moment
+	slowReader := g.Pct(20)
 	s := startSession(e, ClientOpts{Nick: "me", Flood: startFlood, Timeout: []time.Duration{0, time.Second, 10 * time.Minute}[g.Intn(3)], SplitLen: splitLen},
-		func(l *simnet.Link) { l.ChunkMode = g.Intn(4) })
+		func(l *simnet.Link) {
+			l.ChunkMode = g.Intn(4)
+			if slowReader {
+				l.Window = []int{16, 100, 600}[g.Intn(3)]
+			}
+		})
+	if slowReader {
+		e.S.Count("fault.server-reads-slowly-under-flood-protection")
+		s.pause = func() {
+			if e.S.Choose(5) == 0 {
+				simrt.Sleep(time.Duration(1+e.S.Choose(8)) * 500 * time.Millisecond)
+			}
+		}
+	}
 	// idle time between creating the client and connecting is part of the
 	// history: the penalty clock starts at creation
 	preGap := []time.Duration{0, 0, time.Second, 30 * time.Second}[g.Intn(4)]
@@ -348,16 +395,16 @@ func floodRun(e *Env) {
 			// how many lines a long message becomes is the client's business (C11):
 			// wait until nothing has been written for longer than any line is held
 			for quiet := 0; quiet < 2; {
-				nw := len(s.l.Writes)
+				nw := len(wireLines(s.l))
 				simrt.Sleep(20 * time.Second)
-				if len(s.l.Writes) == nw {
+				if len(wireLines(s.l)) == nw {
 					quiet++
 				} else {
 					quiet = 0
 				}
 			}
-		} else if !simrt.BlockFor("flood", "all lines to be written", time.Duration(total)*7*time.Second+time.Minute, func() bool { return len(s.l.Writes) >= want }) {
-			e.Violation("harness-lines-missing", "%d lines on the wire, expected %d (connection up, server reading)\n%s", len(s.l.Writes), want, e.S.TaskDump())
+		} else if !simrt.BlockFor("flood", "all lines to be written", time.Duration(total)*7*time.Second+time.Minute, func() bool { return len(wireLines(s.l)) >= want }) {
+			e.Violation("harness-lines-missing", "%d lines on the wire, expected %d (connection up, server reading)\n%s", len(wireLines(s.l)), want, e.S.TaskDump())
 			return
 		}
 		simrt.WaitIdle()
@@ -377,7 +424,8 @@ func floodRun(e *Env) {
 
 	// wire records: one Write per line (lines are shorter than the bufio buffer)
 	type wire struct {
-		t     time.Duration
+		t     time.Duration // the write began
+		end   time.Duration // the write returned
 		text  string
 		enq   time.Duration
 		flood bool
@@ -385,13 +433,13 @@ func floodRun(e *Env) {
 	var ws []wire
 	oi := 0
 	splitLines := 0
-	for _, w := range s.l.Writes {
-		if !strings.HasSuffix(w.Data, "\r\n") {
-			e.Violation("harness", "write %q is not one whole line", clip(w.Data))
+	for _, w := range wireLines(s.l) {
+		if strings.Count(w.data, "\r\n") != 1 {
+			e.Violation("harness", "write %q is not one whole line", clip(w.data))
 			return
 		}
-		text := strings.TrimSuffix(w.Data, "\r\n")
-		x := wire{t: w.T, text: text}
+		text := strings.TrimSuffix(w.data, "\r\n")
+		x := wire{t: w.start, end: w.end, text: text}
 		var call *floodLine
 		if f := strings.SplitN(text, " ", 3); len(f) == 3 && (f[0] == "PRIVMSG" || f[0] == "NOTICE") && strings.HasPrefix(f[1], "#fl") {
 			call = byTarget[f[1]]
@@ -477,7 +525,7 @@ func floodRun(e *Env) {
 				return false, fmt.Sprintf("line %d (%d bytes, flood=%v, handed over at %v, previous write at %v): written at %v, the penalty rule gives %v (penalty %v after this line)",
 					i, len(w.text), w.flood, w.enq, prevWrite, w.t, want, P)
 			}
-			prevWrite = w.t
+			prevWrite = w.end
 		}
 		return true, ""
 	}
